@@ -39,6 +39,18 @@ using torrent::tracker::TrackerState;
 static const int64_t BASE_US = int64_t(365) * 24 * 3600 * 1000000;
 
 struct Req { int id; int ev; uint64_t up, comp, left; int replaced; };
+
+// canonical event code by NAME (0 none, 1 completed, 2 started, 3 stopped, 4 scrape): the numeric value of the enum
+// only matters where it goes on the wire (TrackerUdp), which the U cases observe.
+static int ev_code(TrackerState::event_enum e) {
+  switch (e) {
+  case TrackerState::EVENT_NONE:      return 0;
+  case TrackerState::EVENT_COMPLETED: return 1;
+  case TrackerState::EVENT_STARTED:   return 2;
+  case TrackerState::EVENT_STOPPED:   return 3;
+  default:                            return 4;
+  }
+}
 static std::mutex        g_req_lock;
 static std::vector<Req>  g_reqs;
 
@@ -56,7 +68,7 @@ public:
     lock_and_set_latest_event(ev);
     {
       std::scoped_lock g(g_req_lock);
-      g_reqs.push_back(Req{m_id, (int)ev, params.uploaded_adjusted, params.completed_adjusted, params.download_left, replaced});
+      g_reqs.push_back(Req{m_id, ev_code(ev), params.uploaded_adjusted, params.completed_adjusted, params.download_left, replaced});
     }
     auto guard = lock_guard();                   // update_requesting_state()
     state().m_flags &= ~TrackerState::flag_starting_request;
@@ -251,7 +263,7 @@ static std::string run_case(const std::vector<std::string>& t) {
           if (!ft) out += ";";
           ft = false;
           out += std::to_string(static_cast<VWorker*>(tr.get_worker())->m_id) + "." + (st.is_enabled() ? "1" : "0") + "." +
-                 ((st.is_requesting() || st.is_starting_request()) ? "1" : "0") + "." + std::to_string((int)st.latest_event()) + "." +
+                 ((st.is_requesting() || st.is_starting_request()) ? "1" : "0") + "." + std::to_string(ev_code(st.latest_event())) + "." +
                  std::to_string(st.success_counter()) + "." + std::to_string(st.failed_counter()) + "." +
                  std::to_string((long long)st.success_time_last().count()) + "." + std::to_string((long long)st.failed_time_last().count()) + "." +
                  std::to_string((long long)st.normal_interval().count()) + "." + std::to_string((long long)st.min_interval().count());
@@ -287,6 +299,119 @@ static std::string run_case(const std::vector<std::string>& t) {
   return out.empty() ? std::string("-") : out;
 }
 
+
+// ------------------------------------------------------------------ UDP wire observation
+// Case:  U <up> <comp> <left> ; <evop> ...   with evop in ss sc sp mr ST SP
+// One REAL TrackerUdp (inserted with TrackerList::insert_url, driven by the real controller, tracker::Manager,
+// tracker thread and UdpRouter) announces to an in-process UDP socket that plays the tracker (BEP 15): connect
+// reply, then the 98-byte announce is read off the wire and answered with a success.
+// Output per evop:  <event code at offset 80>:<downloaded @56>:<left @64>:<uploaded @72>   or  -  (no packet)
+#include <arpa/inet.h>
+#include <sys/socket.h>
+#include <unistd.h>
+
+static uint32_t rd32(const unsigned char* p) { return (uint32_t(p[0]) << 24) | (p[1] << 16) | (p[2] << 8) | p[3]; }
+static uint64_t rd64(const unsigned char* p) { return (uint64_t(rd32(p)) << 32) | rd32(p + 4); }
+static void wr32(unsigned char* p, uint32_t v) { p[0] = v >> 24; p[1] = v >> 16; p[2] = v >> 8; p[3] = v; }
+
+// serve at most one announce; returns "-" if no datagram arrives within the timeout
+static std::string serve_announce(int fd, int timeout_ms) {
+  unsigned char pkt[600];
+  timeval tv{timeout_ms / 1000, (timeout_ms % 1000) * 1000};
+  setsockopt(fd, SOL_SOCKET, SO_RCVTIMEO, &tv, sizeof tv);
+  for (int round = 0; round < 4; round++) {
+    sockaddr_in from{}; socklen_t fl = sizeof from;
+    ssize_t n = recvfrom(fd, pkt, sizeof pkt, 0, (sockaddr*)&from, &fl);
+    if (n < 0) return "-";
+    if (n == 16 && rd32(pkt + 8) == 0) {                  // connect request
+      unsigned char rep[16];
+      wr32(rep, 0); wr32(rep + 4, rd32(pkt + 12)); wr32(rep + 8, 0x01020304); wr32(rep + 12, 0x05060708);
+      sendto(fd, rep, 16, 0, (sockaddr*)&from, fl);
+      timeval tv2{2, 0};
+      setsockopt(fd, SOL_SOCKET, SO_RCVTIMEO, &tv2, sizeof tv2);
+      continue;
+    }
+    if (n == 98 && rd32(pkt + 8) == 1) {                  // announce
+      std::string out = std::to_string(rd32(pkt + 80)) + ":" + std::to_string(rd64(pkt + 56)) + ":" +
+                        std::to_string(rd64(pkt + 64)) + ":" + std::to_string(rd64(pkt + 72));
+      unsigned char rep[20];
+      wr32(rep, 1); wr32(rep + 4, rd32(pkt + 12)); wr32(rep + 8, 1800); wr32(rep + 12, 0); wr32(rep + 16, 0);
+      sendto(fd, rep, 20, 0, (sockaddr*)&from, fl);
+      return out;
+    }
+    return "unexpected-packet:" + hex((const char*)pkt, n);
+  }
+  return "no-announce-after-connect";
+}
+
+static std::string run_udp_case(const std::vector<std::string>& t) {
+  if (t.size() < 5 || t[4] != ";") return "BADCASE";
+  int fd = socket(AF_INET, SOCK_DGRAM, 0);
+  sockaddr_in a{}; a.sin_family = AF_INET; a.sin_addr.s_addr = htonl(INADDR_LOOPBACK);
+  if (fd < 0 || bind(fd, (sockaddr*)&a, sizeof a) < 0) return "SETUP-FAIL socket";
+  socklen_t al = sizeof a;
+  getsockname(fd, (sockaddr*)&a, &al);
+  struct closer { int fd; ~closer() { close(fd); } } cl{fd};
+
+  g_main->set_cached_time(std::chrono::microseconds(BASE_US));
+  torrent::DownloadInfo info;
+  info.mutable_hash().assign("hhhhhhhhhhhhhhhhhhhh");   // a non-zero info hash
+  uint64_t left = std::stoull(t[3]), comp = std::stoull(t[2]);
+  info.mutable_up_rate()->set_total(std::stoull(t[1]));
+  info.slot_left() = [&left]() { return left; };
+  info.slot_completed() = [&comp]() { return comp; };
+
+  std::string out;
+  {
+    torrent::TrackerList list;
+    list.set_info(&info);
+    list.set_key(7);                                // TrackerUdp refuses key 0
+    torrent::TrackerController tc(&list);
+    tc.slot_success() = [](torrent::AddressList*) -> uint32_t { return 0; };
+    tc.slot_failure() = [](const std::string&) {};
+    list.slot_success()          = [&tc](const auto& tr, auto al)        { return tc.receive_success(tr, al); };
+    list.slot_failure()          = [&tc](const auto& tr, const auto& s)  { tc.receive_failure(tr, s); };
+    list.slot_tracker_enabled()  = [&tc](const auto& tr)                 { tc.receive_tracker_enabled(tr); };
+    list.slot_tracker_disabled() = [&tc](const auto& tr)                 { tc.receive_tracker_disabled(tr); };
+    try {
+      list.insert_url(0, "udp://127.0.0.1:" + std::to_string(ntohs(a.sin_port)) + "/announce");
+    } catch (std::exception& e) { return std::string("SETUP-FAIL insert_url: ") + e.what(); }
+    if (list.size() != 1) return "SETUP-FAIL insert_url size";
+    quiesce();
+    try {
+      tc.enable();
+      for (size_t p = 5; p < t.size(); p++) {
+        const std::string& o = t[p];
+        if      (o == "ss") tc.send_start_event();
+        else if (o == "sc") tc.send_completed_event();
+        else if (o == "sp") tc.send_stop_event();
+        else if (o == "mr") tc.manual_request(false);
+        else if (o == "ST") { tc.disable(); tc.enable(); tc.send_start_event(); }
+        else if (o == "SP") { tc.send_stop_event(); tc.disable(); tc.enable(torrent::TrackerController::enable_dont_reset_stats); }
+        else { out += " BADOP"; break; }
+        quiesce();
+        // after quiescence the worker's requesting flag tells whether an announce is on its way
+        std::string w = list.has_active() ? serve_announce(fd, 5000) : std::string("-");
+        // let the success travel tracker thread -> main thread
+        for (int i = 0; i < 200 && w != "-" && list.has_active(); i++) { usleep(2000); quiesce(); }
+        quiesce();
+        if (p > 5) out += " | ";
+        out += w;
+      }
+    } catch (torrent::internal_error& e) { out += std::string(" | ERR:internal ") + e.what();
+    } catch (std::exception& e) { out += std::string(" | ERR:other ") + e.what(); }
+    quiesce();
+    tc.disable();
+    tc.close();
+    for (auto& tr : list) { auto w = tr.get_worker(); on_tracker([w] { w->close(); }); }
+    list.clear();
+    quiesce();
+    g_main->m_scheduler->erase(&tc.m_task_timeout);
+    g_main->m_scheduler->erase(&tc.m_task_scrape);
+  }
+  return out.empty() ? std::string("-") : out;
+}
+
 int main() {
   std_setup();
   g_main = new HMain();
@@ -301,7 +426,7 @@ int main() {
   while (std::getline(std::cin, line)) {
     auto t = split_ws(line);
     try {
-      std::cout << run_case(t) << "\n";
+      std::cout << ((!t.empty() && t[0] == "U") ? run_udp_case(t) : run_case(t)) << "\n";
     } catch (torrent::internal_error& e) {
       std::cout << "ERR:internal " << e.what() << "\n";
     } catch (std::exception& e) {
